@@ -6,17 +6,17 @@ import (
 )
 
 type (
-	astNode          = ast.Node
-	astIdent         = ast.Ident
-	astSelectorExpr  = ast.SelectorExpr
-	astParenExpr     = ast.ParenExpr
-	astBinaryExpr    = ast.BinaryExpr
-	astAssignStmt    = ast.AssignStmt
-	astValueSpec     = ast.ValueSpec
-	astCallExpr      = ast.CallExpr
-	astReturnStmt    = ast.ReturnStmt
-	astKeyValueExpr  = ast.KeyValueExpr
-	astCompositeLit  = ast.CompositeLit
+	astNode         = ast.Node
+	astIdent        = ast.Ident
+	astSelectorExpr = ast.SelectorExpr
+	astParenExpr    = ast.ParenExpr
+	astBinaryExpr   = ast.BinaryExpr
+	astAssignStmt   = ast.AssignStmt
+	astValueSpec    = ast.ValueSpec
+	astCallExpr     = ast.CallExpr
+	astReturnStmt   = ast.ReturnStmt
+	astKeyValueExpr = ast.KeyValueExpr
+	astCompositeLit = ast.CompositeLit
 )
 
 // inspectWithStack walks n calling f with the stack of ancestors (excluding n).
